@@ -198,8 +198,12 @@ class Machine:
 
     def call(self, prog, name, args, mov_mode=0, max_steps=200000):
         r = [0] * 16
+        self.map(self.STACK_TOP, 64)
         for i, a in enumerate(args):
-            r[i] = a & M32
+            if i < 4:
+                r[i] = a & M32
+            else:
+                self.w32(self.STACK_TOP + 4 * (i - 4), a)      # AAPCS: fifth and later arguments on the stack
         for i in range(4, 12):
             r[i] = 0xC5000000 | i
         r[13] = self.STACK_TOP
